@@ -1,6 +1,7 @@
 SPECIFICATION CSpec
 CONSTANTS
   Layouts = {10, 20, 30, 11, 21, 22}
+  Excs = {"hardware", "other"}
 INVARIANT TypeOK
 INVARIANT AtMostOne
 INVARIANT NamesTheActive
@@ -8,4 +9,5 @@ INVARIANT NotBuiltInactive
 INVARIANT ForeignIntact
 PROPERTY HandOver
 PROPERTY Frame
+PROPERTY FailedOffKeeps
 CHECK_DEADLOCK FALSE
